@@ -241,6 +241,7 @@ func (in *Interp) choose(n int) int {
 	for i := 1; i < n; i++ {
 		alts = append(alts, int32(i))
 	}
+	in.forks++ // a case split is a fork decision too (counted once, where it is first taken)
 	in.ctl.fork(0, alts...)
 	return 0
 }
